@@ -40,6 +40,15 @@ trait SetListString {
     fn as_str_list(&self) -> String;
 }
 
+/// The occurrence that comes first in the source: the location of an error
+/// about a set of labels must not depend on the iteration order of the set.
+fn first_occurrence(labels: &HashSet<LabelStringToken>) -> &LabelStringToken {
+    labels
+        .iter()
+        .min_by_key(|label| (label.range(), label.file(), label.get().as_str().to_owned()))
+        .unwrap()
+}
+
 impl<T> SetListString for HashSet<T>
 where
     T: Display + Ord,
@@ -102,7 +111,7 @@ impl DiagnosticLocation for CfgError {
             CfgError::MultipleLabelsForReturn(node, _)
             | CfgError::NoLabelForReturn(node)
             | CfgError::FunctionWithoutReturn(node, _) => node.file(),
-            CfgError::LabelsNotDefined(labels) => labels.iter().next().unwrap().file(),
+            CfgError::LabelsNotDefined(labels) => first_occurrence(labels).file(),
             CfgError::DuplicateLabel(label) | CfgError::LabelWithoutInstruction(label) => {
                 label.file()
             }
@@ -115,7 +124,7 @@ impl DiagnosticLocation for CfgError {
             CfgError::MultipleLabelsForReturn(node, _)
             | CfgError::NoLabelForReturn(node)
             | CfgError::FunctionWithoutReturn(node, _) => node.range(),
-            CfgError::LabelsNotDefined(labels) => labels.iter().next().unwrap().range(),
+            CfgError::LabelsNotDefined(labels) => first_occurrence(labels).range(),
             CfgError::DuplicateLabel(label) | CfgError::LabelWithoutInstruction(label) => {
                 label.range()
             }
@@ -128,7 +137,7 @@ impl DiagnosticLocation for CfgError {
             CfgError::MultipleLabelsForReturn(node, _)
             | CfgError::NoLabelForReturn(node)
             | CfgError::FunctionWithoutReturn(node, _) => node.raw_text(),
-            CfgError::LabelsNotDefined(labels) => labels.iter().next().unwrap().raw_text(),
+            CfgError::LabelsNotDefined(labels) => first_occurrence(labels).raw_text(),
             CfgError::DuplicateLabel(label) | CfgError::LabelWithoutInstruction(label) => {
                 label.raw_text()
             }
